@@ -32,7 +32,7 @@ ASSUMPTIONS = [
     "a 20 s alarm per case reports 'inconclusive' (counted), never a violation",
 ]
 BUDGET = {"quick": (16, 1200), "thorough": (16, 15000)}
-N_MUT = 29
+N_MUT = 30
 
 
 def strategy(tier, phase):
@@ -43,7 +43,7 @@ def strategy(tier, phase):
     mut = st.tuples(st.integers(0, N_MUT - 1), st.integers(0, 50), st.integers(0, 50)).map(list)
     bedit = st.tuples(st.integers(0, 3), st.integers(0, 4000), st.integers(0, 255)).map(list)
     return st.fixed_dictionaries(
-        {"gen": st.sampled_from([2, 3, 3]), "tape": protogen.tape_strategy(300), "irv": st.sampled_from([0, 0, 11, 13, 8]),
+        {"gen": st.sampled_from([2, 3, 4, 4]), "tape": protogen.tape_strategy(300), "irv": st.sampled_from([0, 0, 11, 13, 8, 9, 8]),
          "muts": st.lists(mut, min_size=0, max_size=5), "bytes": st.one_of(st.just([]), st.just([]), st.lists(bedit, min_size=1, max_size=6))}
     )
 
@@ -323,6 +323,22 @@ def mutate(mp, muts):
                 if not any(c.name == "cfg_a" for c in mp.configuration):
                     mp.configuration.add(name="cfg_a", num_devices=2)
                 dc.sharding_spec.add(tensor_name=new_name)
+            elif kind == 29 and mp.functions:  # an old-IR model whose function value types live in the main graph's value_info
+                fp = mp.functions[a % len(mp.functions)]
+                mp.ir_version = [8, 9][b % 2]
+                if b % 3 == 0:
+                    fp.domain = ["ai.onnx", "a::b", "pkg/sub"][a % 3]  # alias spelling / separators of the entry-name format
+                if hasattr(fp, "overload"):
+                    fp.overload = ""
+                for vname in list(fp.input)[:1] + [o for n in fp.node for o in n.output if o][:2]:
+                    if (a + b) % 2 and hasattr(fp, "value_info"):
+                        vi = fp.value_info.add()  # (the field of later IR versions, in an old-IR model)
+                        vi.name = vname
+                    else:
+                        vi = mp.graph.value_info.add()
+                        vi.name = f"{fp.domain}::{fp.name}/{vname}"
+                    vi.type.tensor_type.elem_type = 1
+                    vi.type.tensor_type.shape.dim.add().dim_value = 2
             else:
                 continue
             applied += 1
